@@ -153,7 +153,11 @@ def gen_case(rng, idx, mode):
     lines = ["case c%d %s" % (idx, mode)]
     lines.append("fn %d %d %s poly %d %s" % (kind, n, " ".join(par_s(*p) for p in own), len(monos),
                                            " ".join("%s %s" % (hx(c), " ".join(map(str, e))) for c, e in monos)))
-    lines.append("wrap %d %s" % (scheme, hx(h)))
+    # `D`: the constructor's default step is kept (no setInterval)
+    lines.append("wrap %d %s" % (scheme, "D" if (mode == "float" and r.random() < 0.05) else hx(h)))
+    if lines[-1].endswith(" D"):
+        h = 0.0001
+    cur = {"h": h}
 
     def vars_line():
         u = r.random()
@@ -171,9 +175,20 @@ def gen_case(rng, idx, mode):
             r.shuffle(vs)
         return "vars %d %s" % (len(vs), " ".join(map(str, vs)))
 
+    def enable_line(first):
+        if not first and r.random() < 0.3:
+            # one switch alone
+            return "%s %d" % (r.choice(["en1", "en2", "enx"]), r.randint(0, 1))
+        if r.random() < 0.35:
+            # every combination of the three switches, uniformly
+            return "enable %d %d %d" % (r.randint(0, 1), r.randint(0, 1), r.randint(0, 1))
+        if first:
+            return "enable %d %d %d" % (int(r.random() < 0.9), int(r.random() < 0.8), int(r.random() < 0.6 if scheme == 3 else r.random() < 0.2))
+        return "enable %d %d %d" % (int(r.random() < 0.8), int(r.random() < 0.7), int(r.random() < 0.5 if scheme == 3 else r.random() < 0.2))
+
     lines.append(vars_line())
     if r.random() < 0.5:
-        lines.append("enable %d %d %d" % (int(r.random() < 0.9), int(r.random() < 0.8), int(r.random() < 0.6 if scheme == 3 else r.random() < 0.2)))
+        lines.append(enable_line(True))
 
     def caller_list(full):
         """a list as a caller would pass it: usually the function's own parameters (same
@@ -205,7 +220,7 @@ def gen_case(rng, idx, mode):
                 lo, hi, il, ih = con
                 # a point of the box: anywhere, on a bound, next to a bound
                 w = r.random()
-                hs = (1 + abs(v0)) * h
+                hs = (1 + abs(v0)) * cur["h"]
                 cand = []
                 if lo is not None and hi is not None and lo < hi:
                     if mode == "rat":
@@ -233,7 +248,7 @@ def gen_case(rng, idx, mode):
                         cand.append(lo0 + (hi0 - lo0) * r.choice([0.25, 0.5, 0.75]))
                     v = r.choice(cand)
                 if con == "new":
-                    con = g.interval(v, h)
+                    con = g.interval(v, abs(cur["h"]))
                 elif con is not None and not feasible(con, v):
                     v = v0 if feasible(con, v0) else None
                     if v is None:
@@ -247,15 +262,20 @@ def gen_case(rng, idx, mode):
     for _ in range(nops):
         u = r.random()
         if u < 0.62:
-            o = r.choice(["set", "set", "set", "setall", "setvals", "match", "f", "setone"])
-            if o == "setone":
+            o = r.choice(["set", "set", "set", "setall", "setvals", "match", "f", "setone", "df", "d2f" if r.random() < 0.6 else "d2fx"])
+            if o in ("df", "d2f", "d2fx"):
+                # FirstOrderDerivable::df / SecondOrderDerivable::d2f through the wrapper
+                s_, _ = caller_list(False)
+                a, b = r.randrange(n + (1 if r.random() < 0.05 else 0)), r.randrange(n)
+                lines.append("%s %d %s" % (o, a, s_) if o != "d2fx" else "d2fx %d %d %s" % (a, b, s_))
+            elif o == "setone":
                 k = r.randrange(n) if r.random() < 0.95 else 7
                 _, v0, pr0, con0 = own[k] if k < n else (7, 0.0, 0.0, None)
                 v = g.value()
                 if con0 is not None and r.random() < 0.85:
                     lo, hi, il, ih = con0
                     c = [x for x in (lo, hi) if x is not None]
-                    hs = (1 + abs(v0)) * h
+                    hs = (1 + abs(v0)) * cur["h"]
                     c += [x + hs * s for x in c for s in (-1.5, -0.5, 0.5, 1.5)] + [v0]
                     c = [x for x in c if feasible(con0, x)]
                     if c:
@@ -272,10 +292,22 @@ def gen_case(rng, idx, mode):
             what = r.choice(["d1", "d1", "d2", "dx"])
             a, b = r.randrange(n + (1 if r.random() < 0.05 else 0)), r.randrange(n)
             lines.append("get %s %d" % (what, a) if what != "dx" else "get dx %d %d" % (a, b))
-        elif u < 0.88:
+        elif u < 0.86:
             lines.append(vars_line())
-        elif u < 0.95:
-            lines.append("enable %d %d %d" % (int(r.random() < 0.8), int(r.random() < 0.7), int(r.random() < 0.5 if scheme == 3 else r.random() < 0.2)))
+        elif u < 0.915:
+            lines.append(enable_line(False))
+        elif u < 0.94:
+            # setInterval between updates (rarely a negative step: the first probe is then on the right)
+            nh = g.step()
+            if r.random() < 0.06:
+                nh = -nh
+            cur["h"] = nh
+            lines.append("interval %s" % hx(nh))
+        elif u < 0.965:
+            # the wrapped function's own analytical-derivative switches, behind the wrapper's back
+            lines.append("fnenable %d %d" % (r.randint(0, 1), r.randint(0, 1)))
+        elif u < 0.98:
+            lines.append(r.choice(["copy", "assign"]))
         else:
             s, _ = caller_list(False)
             lines.append("fnset %s" % s)
@@ -292,9 +324,18 @@ def generate(seed, tier):
     return cases
 
 
+def rs_flags(answer):
+    """the r=abc field of an answer to a switch operation"""
+    for tok in answer.split():
+        if tok.startswith("r=") and len(tok) == 5:
+            return tok[2:]
+    return None
+
+
 def coverage_extra(cases, answers):
     """distribution of what was generated / what the implementation did"""
-    st = {"mode": {}, "scheme": {}, "kind": {}, "status": {}, "entry_op": {}, "nvars_function": {}, "nselected": {},
+    st = {"mode": {}, "scheme": {}, "kind": {}, "status": {}, "entry_op": {}, "other_op": {}, "enable_combination": {},
+          "nvars_function": {}, "nselected": {},
           "max_degree": {}, "entry_calls": 0, "entry_calls_with_nan_derivative": 0,
           "entry_calls_with_constrained_list": 0,
           "selection_with_duplicate": 0, "selection_with_foreign_name": 0, "cross_enabled_calls": 0,
@@ -330,7 +371,15 @@ def coverage_extra(cases, answers):
                     st["selection_with_foreign_name"] += 1
             if t[0] == "enable":
                 cross = t[3] == "1"
-            if t[0] in ("set", "setall", "setvals", "match", "f", "setone"):
+            if t[0] in ("interval", "fnenable", "copy", "assign", "fnset", "get", "vars"):
+                st["other_op"][t[0]] = st["other_op"].get(t[0], 0) + 1
+            if t[0] in ("en1", "en2", "enx"):
+                cross = rs_flags(r)[2] == "1" if rs_flags(r) else cross
+                st["other_op"][t[0]] = st["other_op"].get(t[0], 0) + 1
+            if t[0] == "enable":
+                k = "".join(t[1:4])
+                st["enable_combination"][k] = st["enable_combination"].get(k, 0) + 1
+            if t[0] in ("set", "setall", "setvals", "match", "f", "setone", "df", "d2f", "d2fx"):
                 st["entry_calls"] += 1
                 st["entry_op"][t[0]] = st["entry_op"].get(t[0], 0) + 1
                 s = r.split()[0] if r.split() else "?"
